@@ -78,10 +78,19 @@ func init() {
 			return in.ctx.BV(uint64(v), 64)
 		},
 		"vhAssume": func(in *Interp, fn *ssa.Function, a []Value) Value {
-			if !in.Branch(a[0].(*smt.Term)) {
+			// no fork: the side on which the assumption is false is of no interest
+			c := a[0].(*smt.Term)
+			if c.IsFalse() {
 				panic(pathEnd{"assumption false"})
 			}
-			return TupleV{}
+			if c.IsTrue() {
+				return TupleV{}
+			}
+			if in.pos < len(in.prefix) || in.sol.CheckAssuming(c) != smt.Unsat {
+				in.assume(c)
+				return TupleV{}
+			}
+			panic(pathEnd{"assumption false"})
 		},
 		"vhAssert": func(in *Interp, fn *ssa.Function, a []Value) Value {
 			cnd := a[0].(*smt.Term)
